@@ -669,7 +669,13 @@ where
             for s in chunk {
                 st.states += 1;
                 st.transitions += 1;
-                f(s, &mut st);
+                if s.len() > (1 << 16) {
+                    // linear work on megabytes takes seconds on a loaded machine: the "does not
+                    // return" limit grows with the input (30 s per MiB on top of the base limit)
+                    crate::watch::with_allowance(30 + 30 * (s.len() as u64 >> 20), || f(s, &mut st));
+                } else {
+                    f(s, &mut st);
+                }
             }
             st
         })
